@@ -13,7 +13,9 @@ from ..core import Eval, Family
 
 LABEL_KINDS = ["ts", "date", "period", "decimal", "enum", "bytes", "float", "str", "int"]
 SCENARIOS = ["missing-required", "strict-extra", "check-fails", "check-raises", "wrong-dtype", "not-ordered", "joint-duplicates",
-             "nulls", "column-duplicates", "two-errors"]
+             "nulls", "column-duplicates", "two-errors", "coerce-fails", "frame-check-fails", "add-missing-ok", "filter-ok",
+             "drop-ok"]
+RETURNS = {"add-missing-ok", "filter-ok", "drop-ok"}  # scenarios in which a parsing option repairs the violation
 
 
 def _labels(kind):
@@ -80,6 +82,16 @@ def build(case):
         return pa.DataFrameSchema({a: pa.Column(float), b: pa.Column(float)}), pd.DataFrame({a: [1.0, np.nan], b: [3.0, 4.0]})
     if sc == "column-duplicates":
         return pa.DataFrameSchema({a: pa.Column(float, unique=True), b: pa.Column(float)}), pd.DataFrame({a: [1.0, 1.0], b: [3.0, 4.0]})
+    if sc == "coerce-fails":
+        return pa.DataFrameSchema({a: pa.Column(int, coerce=True), b: pa.Column(float)}), pd.DataFrame({a: ["x", "1"], b: [3.0, 4.0]})
+    if sc == "frame-check-fails":
+        return pa.DataFrameSchema({a: pa.Column(float), b: pa.Column(float)}, checks=pa.Check(lambda df: df[a] < df[b] - 5)), both
+    if sc == "add-missing-ok":
+        return pa.DataFrameSchema({a: pa.Column(float), b: pa.Column(float, default=0.5)}, add_missing_columns=True), one
+    if sc == "filter-ok":
+        return pa.DataFrameSchema({a: pa.Column(float)}, strict="filter"), both
+    if sc == "drop-ok":
+        return pa.DataFrameSchema({a: pa.Column(float, pa.Check.ge(2)), b: pa.Column(float)}, drop_invalid_rows=True), both
     # two errors at once: a missing column and a failing check
     return pa.DataFrameSchema({a: pa.Column(float, pa.Check.ge(2)), b: pa.Column(float)}), one
 
@@ -97,13 +109,19 @@ def evaluate(case):
     data0 = data.copy()
     ev.labels += ["labels=" + case["labels"], "scenario=" + case["scenario"], "lazy" if case["lazy"] else "eager"]
     ev.nontrivial = case["labels"] not in ("str", "int")
-    o = fp.outcome(lambda: schema.validate(data, lazy=case["lazy"]))
-    want = "SchemaErrors" if case["lazy"] else "SchemaError"
+    lazy = case["lazy"] or case["scenario"] == "drop-ok"  # (drop_invalid_rows is documented for lazy validation)
+    o = fp.outcome(lambda: schema.validate(data, lazy=lazy))
+    want = "ok" if case["scenario"] in RETURNS else "SchemaErrors" if lazy else "SchemaError"
     if o["kind"] == "internal":
         ev.add(f"internal-exception:{o['exc_type']}@{o['where']}", {"msg": o["msg"][:200], "scenario": case["scenario"]})
     elif o["kind"] != want:
         ev.add(f"outcome-not-in-channel:{o['kind']}:{case['scenario']}", {"wanted": want})
-    elif case["lazy"]:
+    elif want == "ok":
+        exp_cols = {"add-missing-ok": 2, "filter-ok": 1, "drop-ok": 2}[case["scenario"]]
+        exp_rows = 1 if case["scenario"] == "drop-ok" else 2
+        if getattr(o["value"], "shape", None) != (exp_rows, exp_cols):
+            ev.add("parsed-result-wrong-shape:" + case["scenario"], {"shape": list(getattr(o["value"], "shape", ())), "wanted": [exp_rows, exp_cols]})
+    elif lazy:
         try:
             fc = o["exc"].failure_cases
             str(o["exc"])
